@@ -266,7 +266,13 @@ mod unstable {
         if replace {
             let varnames = choose_fresh_variable_names(
                 &formula.variables(),
-                &ivar.name.chars().next().unwrap().to_string(),
+                // the first letter of the name: a name may begin with an underscore
+                &ivar
+                    .name
+                    .chars()
+                    .find(|c| c.is_alphabetic())
+                    .unwrap()
+                    .to_string(),
                 1,
             );
             let fvar = varnames[0].clone();
